@@ -1,7 +1,7 @@
 /-
 The application-facing surface of a `Vaxis`: the drawing calls of window.go (`Model.Window`, C11)
 write into `screenNext`; `ShowCursor`/`HideCursor`/`SetMouseShape` set the requested cursor and
-pointer; `Render`/`Refresh` (vaxis.go) hand `screenNext` to the renderer (`Model.RenderClip`, C01);
+pointer; `Render`/`Refresh` (vaxis.go) hand `screenNext` to the renderer (`Model.RenderSixel`, C01);
 a pending resize makes `Render` reallocate both buffers, set `refresh` and return without writing.
 Core Lean only.
 
@@ -9,7 +9,7 @@ Core Lean only.
 `vaxis.Style` values, so that the buffer C11 computes is the `next` grid C01 renders.
 -/
 import VaxisModel.Model.Window
-import VaxisModel.Model.RenderClip
+import VaxisModel.Model.RenderSixel
 
 namespace VaxisModel.Model.App
 open VaxisModel.Model.Window VaxisModel.Model.Render
@@ -85,7 +85,7 @@ def frameOf (caps : Caps) (I : Interp) (v : Vx) : Frame :=
 
 /-- `Render()` without a pending resize: `render(); Flush(); cursorLast = cursorNext; refresh = false`. -/
 def doRender (cw : String → Nat) (caps : Caps) (I : Interp) (v : Vx) : Vx × List Tok :=
-  let r := renderFrameC cw (frameOf caps I v)
+  let r := renderFrameS cw (frameOf caps I v)
   ({ v with last := r.1, cursorLast := v.cursorNext, shapeLast := v.shapeNext, refresh := false }, r.2)
 
 /-- What ends a frame. `resize` = `Render()` with the resize flag set, the terminal reporting
